@@ -103,8 +103,8 @@ func init() {
 				guardCmp("CRC of the payload equals the stored CRC", `hash/crc32\.Checksum\(.*, consensus\.crc32c\)`, "==", `encoding/binary\.BigEndian\.Uint32\(.*\)`),
 				guardRe("payload read completely", `^nil\(dec\.rd\.Read\(make\(\[\]byte,.*\)\)#1\)$`))
 		}
-		c.Check(c.ge().ensures(dec, guardCallOK("payload decoded into a WAL message", "consensus#WALFromProto"), 0), dk+" ensures the message converted from proto", w.pos(dec.Pos()), "guarded", "Decode can succeed without converting the message")
-		c.Check(c.ge().ensures(dec, guardCmp("CRC matches", `hash/crc32\.Checksum\(.*\)`, "==", `.*Uint32\(.*\)`), 0), dk+" ensures the CRC matched", w.pos(dec.Pos()), "guarded", "Decode can return a record without a CRC match")
+		c.Check(c.ge().ensures(dec, guardCallOK("payload decoded into a WAL message", "consensus#WALFromProto"), 2), dk+" ensures the message converted from proto", w.pos(dec.Pos()), "guarded", "Decode can succeed without converting the message")
+		c.Check(c.ge().ensures(dec, guardCmp("CRC matches", `hash/crc32\.Checksum\(.*\)`, "==", `.*Uint32\(.*\)`), 2), dk+" ensures the CRC matched", w.pos(dec.Pos()), "guarded", "Decode can return a record without a CRC match")
 		// a clean EOF only before the first byte of a frame; anything else is a corruption error
 		eofRet := 0
 		for _, b := range dec.Blocks {
